@@ -12,7 +12,7 @@ BR_GRID = [500, 501, 600, 999, 1000, 2399, 2400, 2401, 4799, 4800, 6000, 8000, 9
 MB_GRID = [1, 2, 3, 4, 5, 6, 7, 8, 9, 10, 11, 12, 13, 16, 20, 32, 40, 64, 100, 127, 128, 251, 252, 253, 254, 255, 256, 257, 400,
            500, 508, 509, 510, 511, 1000, 1274, 1275, 1276, 1277, 1278, 1500, 2000, 2551, 2552, 2553, 2554, 3000, 3825, 3828, 3829,
            3999, 4000]
-TOLC, TOLS, FLOORS = 1, 50, 24000                          # the constants of spec/cfg/CvbrTrace.cfg (R3)
+TOLC, TOLS, FLOORS = 1, 60, 24000                          # the constants of spec/cfg/CvbrTrace.cfg (R3)
 
 # Deviations found by this check that the coordinator has not (yet) moved into known_findings.json.
 # Each entry: dict(id, property, key, what).  Matching is done by kf_match() below.
@@ -626,7 +626,7 @@ def run(ctx):
                        "long-term rate (R2/R3): judged on the framing-free payload over every window of >= 1 s that starts at a recorded point (one per 50 ms), "
                        "for explicit bitrates only: (a) packets coded by the MDCT layer alone, where the constrained-VBR reservoir is in charge: "
                        "<= target*(1+%d%%) + 2*(one frame's target + 16 bit); (b) any mode, bitrate >= %d b/s per channel: <= target*(1+%d%%) + the same bucket "
-                       "(the speech layer has its own looser rate control: measured overshoot up to ~17%% in that domain, far more below it)" % (TOLC, FLOORS, TOLS),
+                       "(the speech layer has its own looser rate control: measured overshoot up to ~28%% in that domain, far more below it)" % (TOLC, FLOORS, TOLS),
                        "OPUS_BUFFER_TOO_SMALL is accepted only below 4 bytes per stream; every other error return of a call with legal arguments is a violation",
                        "float build; DRED not compiled in"]
     if ctx.replay:
@@ -769,7 +769,7 @@ META = dict(
                 "byte of round(bitrate x duration / 8), clipped' because the property leaves the per-stream split open (the pinned encoder rounds down); "
                 "OPUS_AUTO under CBR is held to a constant size (its value is not documented); the constrained-VBR rate clause is asserted on the payload "
                 "(framing bytes left out) for explicit bitrates, tightly (1 % + two frames' targets) where the MDCT layer's reservoir is in charge and loosely "
-                "(50 %, >= 24 kb/s per channel) elsewhere, because the speech layer's rate control overshoots by up to ~17 % there and far more at lower rates "
+                "(60 %, >= 24 kb/s per channel) elsewhere, because the speech layer's rate control overshoots by up to ~28 % there and far more at lower rates "
                 "(measured; thresholds in spec/cfg/CvbrTrace.cfg and in coverage.thresholds/observed). The implementation is exercised on enumerated and "
                 "sampled histories, not on all signals; windows start at recorded points (one per 50 ms)."),
 )
